@@ -22,15 +22,15 @@ package pmm
 // xboot_vmm_shim.go).  Kernel-half virtual addresses cannot exist in a user process:
 //   - the temporary-mapping page is served by wrapping the REAL MapTemporary / Unmap and handing
 //     out the identity alias of the frame the MMU shows there (as harness/vmm/c05, c06 do),
-//   - the early-reservation area just below it (64 pages, plus the temporary page itself for code that
-//     strays there) is served by a host WINDOW: host address = kernel address - tempMappingAddr + winTop.  Each window page is an mmap alias of the
-//     frame the ACTIVE address space maps the kernel page to (PROT_NONE when unmapped, read-only
-//     when not writable), refreshed on TLB flush, on CR3 load and at the MapTemporary / Unmap seams (a TLB
-//     may drop entries at any time).  pmm's
-//     reserveRegionFn / mapFn therefore stay the real vmm functions, composed with that address
-//     translation only (the allocator then works on its tables through the window, i.e.
-//     through the address space that is active at the time: if vmm.Init does not carry the
-//     reservation over, the allocator faults after the switch).
+//   - the early-reservation area just below it (64 pages, plus the temporary page itself for code
+//     that strays there) is served by a host WINDOW: host address = kernel address -
+//     tempMappingAddr + winTop.  Each window page is an mmap alias of the frame the ACTIVE address
+//     space maps the kernel page to (PROT_NONE when unmapped, read-only when not writable),
+//     refreshed on TLB flush, on CR3 load and at the MapTemporary / Unmap seams (a TLB may drop
+//     entries at any time).  pmm's reserveRegionFn / mapFn therefore stay the real vmm functions,
+//     composed with that address translation only; the allocator then works on its tables
+//     through the window, i.e. through the address space that is active at the time: if vmm.Init
+//     does not carry the reservation over, the allocator faults after the switch.
 // After the boot a script exercises the composed system (allocate / free through
 // mm.AllocFrame, lazily allocated pages backed by the zero frame, write faults delivered to
 // the handler vmm.Init installed).  Every step is logged with the projected state; the TLA+
@@ -488,7 +488,7 @@ func (m *xbMachine) enumerate(root uintptr) (walk []xbEv, tables []int, bad int)
 					"fl": [3]int{xbB(r), xbB(u), xbB(n)}, "lus": xbB(e&4 != 0), "cow": xbB(e&(1<<9) != 0)})
 				continue
 			}
-			if !m.inRAM((e & xbFrameMask) >> 12) || len(tables) >= xbWalkCap {
+			if !m.inRAM((e&xbFrameMask)>>12) || len(tables) >= xbWalkCap {
 				bad++
 				continue
 			}
@@ -972,10 +972,10 @@ func xbBytes(u uint64) uint64 {
 }
 
 type xbModelCase struct {
-	Regs []struct{ A, L, T uint64 } `json:"regs"`
-	Ks   uint64                     `json:"ks"`
-	Ke   uint64                     `json:"ke"`
-	Off  uint64                     `json:"off"`
+	Regs []struct{ A, L, T uint64 }   `json:"regs"`
+	Ks   uint64                       `json:"ks"`
+	Ke   uint64                       `json:"ke"`
+	Off  uint64                       `json:"off"`
 	Secs []struct{ A, Sz, Fl uint64 } `json:"secs"`
 	// model script ops are the same numbers as the real ones
 	Script [][]int `json:"script"`
